@@ -91,6 +91,8 @@ structure World where
   now : Int := 0               -- wall clock in ms (moves with `idle`)
   epoch : Nat := 0             -- number of synthetic sweeps so far
   conns : List (String × Nat) := []   -- connection name ↦ node index (while the client side is open)
+  bufs : List (String × List Nat) := []   -- bytes received on a connection and not yet consumed by the decoder
+  deaf : List String := []                -- open connections nobody reads from (CONNECT was refused)
 deriving Repr
 
 def initPool : IdPool.Pool := (IdPool.get (IdPool.new 0 65535)).1
@@ -287,6 +289,7 @@ def World.shutdownSession (w : World) (i : Nat) (sid : String) : World :=
   | none => w
   | some s =>
     let w := (w.setNode i { n with reg := n.reg.filter (fun x => x.id != sid) }).emit s.conn .closed
+    let w := { w with conns := w.conns.filter (fun (c : String × Nat) => c.1 != s.conn) }
     let w := s.topics.foldl (fun w t => w.subDelete i sid t) w
     let cands := sessByClientID (w.node i).dist s.mount s.client
     let (w, stop) :=
@@ -406,7 +409,7 @@ def World.clientPacket (w : World) (conn : String) (pkt : CPkt) : World :=
 /-- setupWorker.setup with a CONNECT packet; `ok = false`: authentication fails -/
 def World.connect (w : World) (conn : String) (i : Nat) (client mount : String) (authOk : Bool) (keepalive : Nat) (will : Option Will) : World :=
   let w : World := { w with conns := (w.conns.filter (fun (c : String × Nat) => c.1 != conn)) ++ [(conn, i)] }
-  if !authOk then w.emit conn (.connack 4)
+  if !authOk then ({ w with deaf := w.deaf ++ [conn] }).emit conn (.connack 4)
   else
     let sid := "S" ++ conn
     let ka := if keepalive = 0 then 30 else keepalive
